@@ -281,11 +281,9 @@ func ruleCollectorHandlerBounds(r *Report, rule string) {
 	okSize := false
 	for _, c := range callsDeep(h.Decl.Body) {
 		if f := callee(info, c); f != nil && f.Name() == "AddNotExceedingSize" && len(c.Args) == 2 {
-			be, ok := ast.Unparen(c.Args[1]).(*ast.BinaryExpr)
-			if ok && be.Op == token.ADD {
-				a, b := isField(info, be.X, "TopNCollector", "size") || isField(info, be.Y, "TopNCollector", "size"), isField(info, be.X, "TopNCollector", "skip") || isField(info, be.Y, "TopNCollector", "skip")
-				okSize = a && b
-			}
+			// the bound is computed from both hc.size and hc.skip (directly or through locals)
+			sl := newDeps(info, h.Decl.Body).SliceOfExpr(c.Args[1])
+			okSize = sl["fld:TopNCollector.size"] && sl["fld:TopNCollector.skip"]
 		}
 	}
 	r.Ob(rule, h.Name+"/store-bounded-by-size+skip", h.Decl.Pos(), okSize, "the bounded store keeps size+skip hits (the requested page plus everything before it)")
@@ -301,6 +299,20 @@ func ruleCollectorHandlerBounds(r *Report, rule string) {
 			return true
 		}
 		c, ok := ast.Unparen(be.X).(*ast.CallExpr)
+		if !ok {
+			// `c := hc.cmp(a, b)` ... `if c <= 0`
+			if id, isID := ast.Unparen(be.X).(*ast.Ident); isID {
+				vo := info.ObjectOf(id)
+				ast.Inspect(h.Decl.Body, func(y ast.Node) bool {
+					if as, isAs := y.(*ast.AssignStmt); isAs && len(as.Lhs) == 1 && len(as.Rhs) == 1 && objOf(info, as.Lhs[0]) == vo {
+						if cc, isCall := as.Rhs[0].(*ast.CallExpr); isCall {
+							c, ok = cc, true
+						}
+					}
+					return true
+				})
+			}
+		}
 		if !ok || len(c.Args) != 2 {
 			return true
 		}
